@@ -48,6 +48,46 @@ fn observe(path: &str, is: &[Instruction], pr: &mut Proj) -> Sexp {
     let c = pr.pids(&rebuilt_l);
     let used = pr.qubit_set(p.get_used_qubits());
     let rused = pr.qubit_set(rebuilt.get_used_qubits());
+    // further views of the same content and the relations that must hold between sibling entry points
+    let body: Vec<Instruction> = p.body_instructions().cloned().collect();
+    let cals = p.calibrations.to_instructions();
+    let frames = p.frames.to_instructions();
+    let exts = p.extern_pragma_map.to_instructions();
+    let filt = p.filter_instructions(|_| true).to_instructions();
+    let mut sib: Vec<Sexp> = Vec::new();
+    let mut rel = |name: &str, ok: bool| {
+        if !ok {
+            sib.push(st(name))
+        }
+    };
+    rel("into_body_instructions = body_instructions", p.clone().into_body_instructions().collect::<Vec<_>>() == body);
+    rel(
+        "get_instruction(i) = body[i]",
+        (0..body.len() + 1).map(|k| p.get_instruction(k).cloned()).collect::<Vec<_>>()
+            == body.iter().cloned().map(Some).chain(std::iter::once(None)).collect::<Vec<_>>(),
+    );
+    rel("Calibrations::into_instructions = to_instructions", p.calibrations.clone().into_instructions() == cals);
+    rel("FrameSet::into_instructions = to_instructions", p.frames.clone().into_instructions() == frames);
+    rel("to_instructions twice", p.to_instructions() == to);
+    rel("into_instructions of a clone twice", p.clone().into_instructions() == into);
+    rel("p == p.clone()", p == p.clone() && p.clone() == p);
+    rel("== symmetric with rebuilt", (rebuilt == p) == (p == rebuilt));
+    rel("to_quil_or_debug twice", p.to_quil_or_debug() == p.to_quil_or_debug());
+    rel("From<Vec>(listing) == from_instructions(listing)", Program::from(to.clone()) == rebuilt);
+    rel("is_empty = (len == 0)", p.is_empty() == (p.len() == 0));
+    let aux = tagged(
+        "aux",
+        vec![
+            tagged("body", vec![pr.pids(&body)]),
+            tagged("cals", vec![pr.pids(&cals)]),
+            tagged("frames", vec![pr.pids(&frames)]),
+            tagged("exts", vec![pr.pids(&exts)]),
+            tagged("filt", vec![pr.pids(&filt)]),
+            tagged("len", vec![nat(p.len() as u64)]),
+            tagged("empty", vec![boolean(p.is_empty())]),
+            tagged("sib", sib),
+        ],
+    );
     let new = pr.take_new();
     tagged(
         "views",
@@ -62,6 +102,7 @@ fn observe(path: &str, is: &[Instruction], pr: &mut Proj) -> Sexp {
             tagged("used", vec![used]),
             tagged("rused", vec![rused]),
             pr.key_report(),
+            aux,
         ],
     )
 }
@@ -102,6 +143,21 @@ fn run(ctx: &mut Ctx) {
              "DEFFRAME 0 1 \"cz\":\n\tHARDWARE-OBJECT: \"q0_q1\"", "DEFFRAME 0 \"rf\":\n\tINITIAL-FREQUENCY: 2000000000\n\tDIRECTION: \"tx\""],
         vec!["DEFGATE FOO:\n\t1, 0\n\t0, 1", "DEFWAVEFORM wf:\n\t1, 0.5, 0.25", "FOO 3", "DEFGATE FOO:\n\t0, 1\n\t1, 0", "DEFWAVEFORM wf:\n\t0.5i, 1"],
         vec!["PRAGMA EXTERNAL foo", "PRAGMA extern foo", "PRAGMA EXTERN foo"],
+        // programs that are "empty" in one flavour: only gate calibrations / only measure calibrations /
+        // only extern pragmas / only definitions (is_empty() and len() ignore calibrations,
+        // Calibrations::is_empty ignores measure calibrations)
+        vec!["DEFCAL X 5:\n\tNOP"],
+        vec!["DEFCAL MEASURE 2 addr:\n\tX 11"],
+        vec!["DEFCAL MEASURE 2 addr:\n\tX 11", "DEFCAL MEASURE 0:\n\tX 43"],
+        vec!["DEFCAL X 5:\n\tNOP", "DEFCAL MEASURE 2 addr:\n\tX 11"],
+        vec!["PRAGMA EXTERN foo \"INTEGER (x : INTEGER)\""],
+        vec!["PRAGMA EXTERN"],
+        vec!["DECLARE ro BIT[2]"],
+        vec!["DEFFRAME 0 \"rf\":\n\tDIRECTION: \"tx\""],
+        vec!["DEFWAVEFORM wf:\n\t1"],
+        vec!["DEFGATE FOO:\n\t1, 0\n\t0, 1"],
+        vec!["DEFCIRCUIT BELL a b:\n\tH a\n\tCNOT a b"],
+        vec!["X 0"],
         // PRAGMA EXTERN: the key is the first argument when it is an identifier, whatever follows
         vec!["PRAGMA EXTERN foo legacy \"(c : REAL)\"", "PRAGMA EXTERN foo \"INTEGER (x : INTEGER)\""],
         vec!["PRAGMA EXTERN foo legacy \"(c : REAL)\"", "PRAGMA EXTERN bar legacy \"(c : REAL)\""],
@@ -150,6 +206,7 @@ fn run(ctx: &mut Ctx) {
         "DEFCAL X 0:\n\tY 13",
         "DEFCAL DAGGER X 0:\n\tY 14",
         "DEFCAL CONTROLLED X 0:\n\tY 15",
+        "DEFCAL MEASURE 2 addr:\n\tX 11",
         "DEFFRAME 0 \"rf\":\n\tDIRECTION: \"tx\"",
         "X 0",
         "PRAGMA hello \"w\"",
@@ -220,7 +277,8 @@ fn run(ctx: &mut Ctx) {
         let len = rng.below(25);
         let def_pct = *rng.pick(&[20u64, 50, 80]);
         let with_api = rng.chance(1, 4);
-        let is = pool.history(&mut rng, len, def_pct, with_api);
+        // one history in a hundred is long (64-300 instructions, few keys, many redefinitions)
+        let is = if rng.chance(1, 100) { pool.long_history(&mut rng) } else { pool.history(&mut rng, len, def_pct, with_api) };
         let mut path = *rng.pick(&PATHS);
         if path == "from_str" && !text_stable(&is) {
             path = "from_instructions";
